@@ -103,7 +103,8 @@ def check_flag_ownership(rep, core, rid='R06.i'):
                 rep.bad(rid, key, 'a %s with an aborted flag is built in %s, which is not in the flag table' % (ty, host))
                 continue
             seen_t.add((host, ty))
-            src = origins(f, rv['ops'][rv['fields'].index('aborted')])
+            from rules.props import prims as _pr
+            src = _pr.origins_nt(core, f, rv['ops'][rv['fields'].index('aborted')])
             fresh = bool(src) and all(o.kind == 'call' and call_matches(o.term, ['core::default::Default::default', 'alloc::sync::Arc::new']) for o in src)
             def of_owner(o):
                 # a clone of an `aborted` field, or of the fresh flag made in this function for the owner
@@ -111,7 +112,7 @@ def check_flag_ownership(rep, core, rid='R06.i'):
                     return False
                 if 'aborted' in c01.field_of_receiver(f, o.term['args'][0]):
                     return True
-                inner = origins(f, o.term['args'][0])
+                inner = _pr.origins_nt(core, f, o.term['args'][0])
                 return bool(inner) and all(x.kind == 'call' and call_matches(x.term, ['core::default::Default::default', 'alloc::sync::Arc::new']) for x in inner)
             shared = bool(src) and all(of_owner(o) for o in src)
             if want == 'fresh':
@@ -311,7 +312,8 @@ def check(ctx, rep):
             rv = s['rv']
             if rv['k'] == 'agg' and path_matches(rv.get('adt'), 'crux_core::command::executor::Task'):
                 a = dict(zip(rv['fields'], rv['ops']))['aborted']
-                shared = any(o.kind == 'call' and call_matches(o.term, ['core::clone::Clone::clone']) for o in origins(new, a))
+                from rules.props import prims as _pr2
+                shared = any(o.kind == 'call' and call_matches(o.term, ['core::clone::Clone::clone']) for o in _pr2.origins_nt(core, new, a))
         rep.expect('R06.e', shared, 'Command::new|shared-flag', 'the root task\'s aborted flag is a clone of the command\'s flag',
                    'Command::new: the root task no longer shares the command\'s aborted flag')
     check_flag_ownership(rep, core)
